@@ -57,16 +57,36 @@ Theorem C08_lr_unsupported_items_parsed : unsupported_facts = true.
 Proof. exact unsupported_facts_ok. Qed.
 Print Assumptions C08_lr_unsupported_items_parsed.
 
-(* REFUTED reading "a comment is trivia everywhere": a comment on the last line of a file without a
-   final newline turns an accepted token sequence into a syntax error at end of input (the same
-   sequence with the NEWLINE, or without the comment, is accepted).  Replayed on the real
-   parser: `proto a\nmessage M {} // tail` -> GrammarError "Grammar error at eof", line 0. *)
-Theorem C08_lr_comment_at_eof_refuted :
-  exists ts, parse ts = SyntaxError (List.length ts) eof (match parse ts with SyntaxError _ _ rs => rs | _ => [] end) /\
-             (exists rs, parse (ts ++ [term_id "NEWLINE"%string]) = Accept rs) /\
-             (exists rs, parse (removelast ts) = Accept rs).
-Proof. exact comment_eof_refuted. Qed.
-Print Assumptions C08_lr_comment_at_eof_refuted.
+(* comments: in every accepted token sequence each COMMENT is immediately followed by NEWLINE, so a
+   sequence ending in COMMENT is never accepted (a fact about the grammar/tables, for ALL
+   sequences).  This was the finding comment-at-eof (`proto a\nmessage M {} // tail` without a
+   final newline: "Grammar error at eof", line 0); fixed in /repo ca58921: Parser.parse_string
+   terminates the last line (translated: GenLR.appends_final_newline), so a text that does not
+   end in a newline reaches the driver with a final NEWLINE and the witness is accepted.
+   Not proved (lexer unmodelled): that a text ENDING in a newline character lexes to a sequence
+   ending in NEWLINE; T2 compares LRConcrete.text_tokens with the tokens really fetched. *)
+Theorem C08_lr_accepted_comment_newline : forall fuel ts rs, ~ In eof ts ->
+  lr_run tables fuel ts = Accept rs -> followed t_comment t_newline ts = true.
+Proof. exact accepted_comment_newline. Qed.
+Print Assumptions C08_lr_accepted_comment_newline.
+
+Theorem C08_lr_trailing_comment_rejected : forall fuel ts rs, ~ In eof ts ->
+  lr_run tables fuel (ts ++ [t_comment]) <> Accept rs.
+Proof. exact trailing_comment_rejected. Qed.
+Print Assumptions C08_lr_trailing_comment_rejected.
+
+Theorem C08_lr_text_ends_in_newline : appends_final_newline = true ->
+  forall raw, last (text_tokens raw false) eof = t_newline.
+Proof. exact text_tokens_end_newline. Qed.
+Print Assumptions C08_lr_text_ends_in_newline.
+
+Theorem C08_lr_comment_at_eof_accepted : exists rs, parse_text comment_eof_witness false = Accept rs.
+Proof. exact comment_eof_text_accepted. Qed.
+Print Assumptions C08_lr_comment_at_eof_accepted.
+
+Theorem C08_lr_text_path_facts : comment_eof_facts = true.
+Proof. exact comment_eof_facts_ok. Qed.
+Print Assumptions C08_lr_text_path_facts.
 
 (* completeness on the expression sub-language, bounded: every expression tree of LRFacts.expr_domain (4141
    trees of depth <= 3 over the four operators) prints (minimal parentheses) to tokens the tables parse back to the
